@@ -31,7 +31,8 @@ for i in range(1, 21):
                 co.extend(c.replace(" co:", " cov:", 1) for c in cases)
             else:
                 (co if kind == "co" else fc).extend(cases)
-env = dict(os.environ, CARGO_NET_OFFLINE="true", RUSTFLAGS="-C instrument-coverage")
+env = dict(os.environ, CARGO_NET_OFFLINE="true", RUSTFLAGS="-C instrument-coverage",
+           LLVM_PROFILE_FILE=os.path.join(W, "build-%p.profraw"))    # build scripts are instrumented too: keep their profiles out of the source trees
 r = subprocess.run(["cargo", "+nightly", "build", "-q", "--offline", "--features", "fc-std", "--target-dir", os.path.join(W, "target")],
                    cwd=os.path.join(W, "h"), env=env, text=True, capture_output=True)
 if r.returncode != 0:
